@@ -20,13 +20,19 @@ for wt in sorted(glob.glob("/tmp/wt2_C*")):
         todo.append((wt, n, pid))
 print("to evaluate:", [(os.path.basename(w), n) for w, n, _ in todo])
 done_wt = set()
-def job(t):
-    wt, n, pid = t
-    r = subprocess.run(f"tools/eval_mutant.py {wt} {n} {pid} --out {pid}-r2m{n}", shell=True, cwd=VERIF, capture_output=True, text=True)
-    lines = [l for l in (r.stdout + r.stderr).splitlines() if l.startswith(("confirm", "check")) or "Error" in l or "VIOLATION" in l]
-    return f"{pid} r2m{n}: " + " | ".join(l.strip()[:120] for l in lines[:4])
-for wt in {t[0] for t in todo}:
+def job(group):
+    out = []
+    for wt, n, pid in group:          # one worktree is used by one evaluation at a time
+        r = subprocess.run(f"tools/eval_mutant.py {wt} {n} {pid} --out {pid}-r2m{n}", shell=True, cwd=VERIF, capture_output=True, text=True)
+        lines = [l for l in (r.stdout + r.stderr).splitlines() if l.startswith(("confirm", "check")) or "Error" in l or "VIOLATION" in l]
+        msg = f"{pid} r2m{n}: " + " | ".join(l.strip()[:120] for l in lines[:4])
+        print(msg, flush=True)
+        out.append(msg)
+    return out
+groups = {}
+for t in todo:
+    groups.setdefault(t[0], []).append(t)
+for wt in groups:
     subprocess.run(f"git -C {wt} checkout -q -- . ; git -C {wt} checkout -q --detach {head}", shell=True)
-with ThreadPoolExecutor(2) as ex:
-    for res in ex.map(job, todo):
-        print(res, flush=True)
+with ThreadPoolExecutor(int(os.environ.get("R2_PAR", "3"))) as ex:
+    list(ex.map(job, groups.values()))
